@@ -3,6 +3,38 @@ package main
 // Replay of solver models on the real code (see DESIGN.md section 5).
 
 func tryReplay(e *Engine, r *Result) {
-	// filled in by replay_impl.go for scalar inputs
+	o := r.Obl
+	if o.vc == nil || o.vc.fn == nil {
+		return
+	}
 	replayScalar(e, r)
+	if r.replayed {
+		return
+	}
+	// A failed wrap-freedom or run-time-check obligation is not itself
+	// observable. Look for an input on which the wrap changes an output: the
+	// same function with wrap-around modelled exactly and its postconditions
+	// as goals.
+	if o.Kind == "nowrap" || o.Kind == "safety" {
+		vc2 := newFuncVC(e, o.vc.fn)
+		vc2.forceWrap = true
+		vc2.generate()
+		vc2.finish()
+		for _, o2 := range vc2.obls {
+			if o2.Kind != "ensures" || o2.Probe {
+				continue
+			}
+			r2 := solve(o2, o.vc.workDir()+"/wrapsearch", 10, false)
+			if r2.Status != "sat" {
+				continue
+			}
+			replayScalar(e, r2)
+			if r2.replayed {
+				r.replayed = true
+				r.replayNote = "input found by re-checking the postconditions with wrap-around modelled exactly (" + o2.Name + "): " + r2.replayNote
+				r.replayInput = r2.replayInput
+				return
+			}
+		}
+	}
 }
